@@ -486,7 +486,9 @@ fn run(ctx: &mut Ctx) {
         let refuse = |ctx: &mut Ctx, name: &str, args: Vec<PathBuf>| {
             for (bi, exe) in [&exe_v, &exe_s].iter().enumerate() {
                 ctx.eval();
-                let stem = dir.join(format!("refuse{}_{}", bi, name.replace(' ', "_")));
+                // (the output name must be a plain file name, whatever the label contains, and fresh for every attempt)
+                let tag: String = name.chars().map(|c| if c.is_ascii_alphanumeric() { c } else { '_' }).collect();
+                let stem = dir.join(format!("refuse{}_{}_{}", bi, tag, ctx.evaluations));
                 let o = Command::new(exe).args(&args).arg("-o").arg(&stem).output();
                 if let Ok(o) = o {
                     if o.status.success() || stem.with_extension("csv").exists() {
@@ -553,7 +555,7 @@ fn run(ctx: &mut Ctx) {
                 // an otherwise perfect continuation of the run whose extension differs from the known ones in case only,
                 // or is a near miss of them
                 let tlast = files.last().unwrap().t1;
-                for (k, ext) in ["MID", "Mid", "mid.LZ4", "MID.lz4", "midx", "mid.lz", "mid.lz4.bak", "lz4"].iter().enumerate() {
+                for (k, ext) in ["MID", "Mid", "mid.LZ4", "mid.Lz4", "midx", "mid.lz", "mid.lz4.bak", "LZ4"].iter().enumerate() {
                     let p = dir.join(format!("cont{}.{}", k, ext));
                     let bytes = midas::file_bytes(run_number, tlast + 1, tlast + 2, &[]);
                     if ext.to_lowercase().ends_with("lz4") && !ext.ends_with("bak") {
